@@ -98,7 +98,7 @@ def programs(i1):
     n1s = range(-1, NE) if THOROUGH else ((i1 + 1) % NE,)
     for n1 in n1s:
         for u2 in (range(5) if THOROUGH else (1, 2, 4)):
-            yield G.build(i1, n1, (i1 + u2) % 4, u2 % 2 == 0, u2 % 3, u2 % 2 == 1, u2)
+            yield G.build(i1, n1, (i1 + u2) % 4, u2 % 2 == 0, (u2 + i1) % 5, u2 % 2 == 1, u2)
 
 
 def positional(i1: int, kind: int, case: int, eol: int, tb: bool) -> bool:
@@ -144,7 +144,8 @@ def split(i1: int, amp: bool, case: int) -> bool:
         for p in programs(i1):
             for i, st in enumerate(p.sts):
                 for k in range(1, len(st.toks)):
-                    lay = Layout(case=case * 2, split=(i, k), lead_amp=amp, cont_gap=[None, "", "   ", "  ! comment & inside"][(i + k) % 4])
+                    lay = Layout(case=case * 2, split=(i, k), lead_amp=amp, cont_gap=[None, "", "   ", "  ! comment & inside"][(i + k) % 4],
+                                 cont_comment=[None, " ! in & out", " ! plain"][(i + 2 * k) % 3])
                     msg = check(p, lay)
                     if msg:
                         FAIL.append(msg)
@@ -221,6 +222,12 @@ def free_not_fixed(i1: int, indent: int, case: int, m: int) -> bool:
             if not ok:
                 break
             msg = check(p, Layout(case=case, indent=indent), want_fixed=False)
+            if msg is None:
+                # every statement starts in column 7 or later and no letter is in column 1: the only free-form evidence
+                # is one continuation whose '&' is followed by a trailing comment
+                j = (i1 + indent + m) % len(p.sts)
+                if len(p.sts[j].toks) > 2:
+                    msg = check(p, Layout(case=case, indent=indent, base_indent=6, split=(j, 2), cont_comment=" ! why"), want_fixed=False)
             if msg:
                 FAIL.append(msg)
                 ok = False
